@@ -157,6 +157,10 @@ def run(ctx):
             b["line"], json.dumps(compact(rec["cmd"])), json.dumps(b["r"])[:500], json.dumps(rec["r"])[:500],
             "" if b["r"] != rec["r"] else " ; audits differ: model %s server %s" % (json.dumps(b["audit"])[:400], json.dumps(rec["audit"])[:400])),
             {"kind": "trace", "prefix": vlib.trace_prefix(tr, b["line"])})
+    tmc = {}
+    for b in bad:
+        tmc[b["sig"]] = tmc.get(b["sig"], 0) + 1
+    extra.setdefault("mismatch_counts", {})["rnd:random"] = tmc
     ctx.cov["traces_validated_against_impl"] += nhist - len(bad)
     ctx.cov["evaluations"] += s2.get("records", 0)
     extra["trace_records"] = s2.get("records", 0)
